@@ -638,7 +638,7 @@ func genCtxLookup(c *Ctx, n int, gpos bool) *gtab.LookupTable {
 // and starts a new child.
 
 var dslWorkerOps = []string{"dsl.parse", "dsl.total", "dsl.roundtrip", "dsl.modelrt", "dsl.rtseed", "dsl.goroutines", "dsl.flags",
-	"dsl.rtrepeat", "dsl.parserepeat", "dsl.meaning", "dsl.comments", "dsl.goroutinesrep"}
+	"dsl.rtrepeat", "dsl.parserepeat", "dsl.meaning", "dsl.comments", "dsl.goroutinesrep", "dsl.glyphbound"}
 
 var dslImpl = map[string]opFn{}
 
@@ -955,4 +955,102 @@ func genMeaning(c *Ctx) {
 		back, look = join(bf, ","), join(lf, ",")
 	}
 	c.Case(Direct, "dsl.meaning", fmt.Sprintf("%s fmt=%d back=%s look=%s text=%s", d.args(), format, back, look, hx([]byte(text))), true)
+}
+
+// ---- every glyph of a parsed lookup list belongs to the font ----
+
+var glyphIDType = reflect.TypeOf(glyph.ID(0))
+
+// maxGlyph walks a value and returns the largest glyph id in it (-1: none).  The offset of a GSUB
+// 1.1 table is a glyph.ID too but not a glyph: there the glyphs are the covered ones and their images.
+func maxGlyph(v reflect.Value) int {
+	best := -1
+	up := func(x int) {
+		if x > best {
+			best = x
+		}
+	}
+	switch v.Kind() {
+	case reflect.Ptr, reflect.Interface:
+		if !v.IsNil() {
+			if s, ok := v.Interface().(*gtab.Gsub1_1); ok {
+				for g := range s.Cov {
+					up(int(g))
+					up(int(g + s.Delta))
+				}
+				return best
+			}
+			up(maxGlyph(v.Elem()))
+		}
+	case reflect.Slice, reflect.Array:
+		for i := 0; i < v.Len(); i++ {
+			up(maxGlyph(v.Index(i)))
+		}
+	case reflect.Map:
+		for _, k := range v.MapKeys() {
+			up(maxGlyph(k))
+			up(maxGlyph(v.MapIndex(k)))
+		}
+	case reflect.Struct:
+		for i := 0; i < v.NumField(); i++ {
+			up(maxGlyph(v.Field(i)))
+		}
+	default:
+		if v.Type() == glyphIDType {
+			up(int(v.Uint()))
+		}
+	}
+	return best
+}
+
+// dslGlyphBound: a text that Parse accepts yields lookups whose glyphs all exist in the font, and
+// (when all lookups belong to one table) Explain can write them again.
+func dslGlyphBound(f Fields) string {
+	return dslCanonPanic(guard(func() string {
+		font := dslFontOf(f)
+		n := f.Int("n")
+		ll, err := builder.Parse(font, string(f.Hex("text")))
+		if err != nil {
+			return "sound"
+		}
+		for _, l := range ll {
+			for _, st := range l.Subtables {
+				if m := maxGlyph(reflect.ValueOf(&st).Elem()); m >= n {
+					return fmt.Sprintf("glyph-outside-font:%d", m)
+				}
+			}
+		}
+		gsub, gpos := 0, 0
+		for _, l := range ll {
+			for _, st := range l.Subtables {
+				name := fmt.Sprintf("%T", st)
+				switch {
+				case strings.Contains(name, "Gsub"):
+					gsub++
+				case strings.Contains(name, "Gpos"):
+					gpos++
+				case l.Meta.LookupType <= 6:
+					gsub++
+				default:
+					gpos++
+				}
+			}
+		}
+		out := guard(func() string {
+			defer func() { font.Gsub, font.Gpos = nil, nil }()
+			switch {
+			case gpos == 0 && gsub > 0:
+				font.Gsub = &gtab.Info{LookupList: ll}
+				_ = builder.ExplainGsub(font)
+			case gsub == 0 && gpos > 0:
+				font.Gpos = &gtab.Info{LookupList: ll}
+				_ = builder.ExplainGpos(font)
+			}
+			return "sound"
+		})
+		if strings.HasPrefix(out, "panic:") {
+			return "explain-panic"
+		}
+		return out
+	}))
 }
